@@ -164,7 +164,7 @@ func (s *Solver) define(t *Term) {
 func (s *Solver) declare() {
 	for ; s.declV < len(s.ctx.vars); s.declV++ {
 		v := s.ctx.vars[s.declV]
-		s.send(fmt.Sprintf("(declare-const %s %s)", smtName(v.name), v.sort.String()))
+		s.send(fmt.Sprintf("(declare-const %s %s)", smtName(v.name+sortSuffix(v.sort)), v.sort.String()))
 	}
 	for ; s.declF < len(s.ctx.ufList); s.declF++ {
 		d := s.ctx.ufList[s.declF]
@@ -579,7 +579,7 @@ func (c *Ctx) Script(asserts []*Term) string {
 		visit(a)
 	}
 	for _, v := range vars {
-		fmt.Fprintf(&sb, "(declare-const %s %s)\n", smtName(v.name), v.sort.String())
+		fmt.Fprintf(&sb, "(declare-const %s %s)\n", smtName(v.name+sortSuffix(v.sort)), v.sort.String())
 	}
 	for _, d := range ufl {
 		var as []string
